@@ -13,7 +13,6 @@ import (
 	"fmt"
 	"math/big"
 	"path/filepath"
-	"sort"
 	"strings"
 
 	"github.com/0xPolygon/cdk-contracts-tooling/contracts/pp/l2-sovereign-chain/polygonrollupmanager"
@@ -325,7 +324,7 @@ func Run(c *mc.Ctx, u mc.Unit, opt Options, oracle Oracle) {
 		c.Failf("world-sanity/l1-store-rejects-block", "scenario [%s]: %v", world.OpsString(p.Ops), err)
 		return
 	}
-	if err := w.CheckL1(ctx, st); err != nil {
+	if err := w.CheckL1(ctx, st, true); err != nil {
 		c.Failf("world-sanity/l1-store-differs-from-reference", "scenario [%s]: %v", world.OpsString(p.Ops), err)
 		return
 	}
@@ -456,24 +455,4 @@ func UnitsOf(fams []world.Family) []mc.Unit {
 		}
 	}
 	return us
-}
-
-// Interleave spreads the units of different cost classes evenly over the batches (round robin by
-// a stable hash of the name) so that batches are similar in cost.
-func Interleave(us []mc.Unit) []mc.Unit {
-	type ku struct {
-		k uint64
-		u mc.Unit
-	}
-	ks := make([]ku, len(us))
-	for i, u := range us {
-		h := ref.Keccak([]byte(u.Name))
-		ks[i] = ku{new(big.Int).SetBytes(h[:8]).Uint64(), u}
-	}
-	sort.SliceStable(ks, func(i, j int) bool { return ks[i].k < ks[j].k })
-	out := make([]mc.Unit, len(us))
-	for i := range ks {
-		out[i] = ks[i].u
-	}
-	return out
 }
